@@ -114,12 +114,24 @@ def main(argv=None):
     jobs = []
     for c in conds:
         for sid, sfix in c.shards():
-            path = os.path.join(bdir, sid.replace("/", "_") + ".py")
+            path = os.path.join(bdir, sid.replace("/", "_").replace(".", "_") + ".py")
             with open(path, "w") as f:
                 f.write(c.module_source(sfix))
             jobs.append({"cond": c, "sid": sid, "path": path, "sfix": sfix})
     random.Random(seed).shuffle(jobs)
-    jobs.sort(key=lambda j: -j["cond"].timeout)   # long shards first
+    def weight(j):      # estimated size of the shard's input space: big shards first (better packing on 16 cores)
+        w = 1.0
+        for p in j["cond"].params:
+            if p.name in j["sfix"]:
+                continue
+            if p.kind == "bool":
+                w *= 2
+            elif p.kind == "int" and p.lo is not None and p.hi is not None:
+                w *= max(p.hi - p.lo, 1)
+            else:
+                w *= 4
+        return w
+    jobs.sort(key=lambda j: -weight(j))
     lemma_specs = hmod.lemmas(args.tier) if hasattr(hmod, "lemmas") and not args.only else []
     print("vcheck %s tier=%s repo=%s: %d conditions, %d shards, %d workers"
           % (pid, args.tier, repo_state(), len(conds), len(jobs), args.jobs), flush=True)
